@@ -135,7 +135,13 @@ func (s *manager) DisconnectClients(ctx context.Context) {
 	}
 }
 
-func (s *setupWorker) setup(ctx context.Context, m transport.Metadata) error {
+func (s *setupWorker) setup(ctx context.Context, m transport.Metadata) (err error) {
+	// a malformed packet must not take the broker down: the decoder panics on some of them
+	defer func() {
+		if r := recover(); r != nil {
+			err = ErrProtocolViolation
+		}
+	}()
 	c := m.Channel
 	c.SetReadDeadline(
 		time.Now().Add(connectTimeout),
@@ -253,7 +259,13 @@ type timeoutError interface {
 	Timeout() bool
 }
 
-func (s *connectionWorker) processSession(ctx context.Context, session *sessions.Session) bool {
+func (s *connectionWorker) processSession(ctx context.Context, session *sessions.Session) (ok bool) {
+	// a malformed packet must not take the broker down: the decoder panics on some of them
+	defer func() {
+		if r := recover(); r != nil {
+			ok = false
+		}
+	}()
 	c := session.ReadWriter()
 	started := time.Now()
 	pkt, err := s.decoder.Decode(c)
